@@ -37,11 +37,21 @@ type realSess struct {
 }
 
 func (r *realSess) peerReadLoop() {
-	buf := make([]byte, 256)
+	buf := make([]byte, 64<<10)
+	fold := 1
+	if r.w != nil && r.w.sendAmp > 1 {
+		fold = r.w.sendAmp // every payload byte was sent sendAmp times: fold them back
+	}
+	raw := 0
 	for {
 		n, err := r.peer.Read(buf)
 		r.mu.Lock()
-		r.inbox = append(r.inbox, buf[:n]...)
+		for j := 0; j < n; j++ {
+			raw++
+			if raw%fold == 0 {
+				r.inbox = append(r.inbox, buf[j])
+			}
+		}
 		if err != nil {
 			r.peerSawClose = true
 			r.mu.Unlock()
@@ -161,9 +171,11 @@ func (c *connMgr) Do(conn net.Conn) {
 		return
 	}
 	r.fc = newFaultConn(conn, r.id)
+	r.fc.closeErr = w.closeErr
+	r.w = w
 	w.byName[string(r.fc.name)] = r
 	w.mu.Unlock()
-	w.mgr.Do(r.fc)
+	w.mgr.Do(r.fc.forSession())
 	r.started.Store(true)
 	w.doCalls.Add(1)
 }
@@ -190,6 +202,9 @@ type world struct {
 	pace  time.Duration
 	chunk int
 	amp   int
+
+	sendAmp  int  // concurrent-large-sends: every payload byte is handed to Session.Send sendAmp times
+	closeErr bool // every connection's Close reports an error after closing
 }
 
 // watchdog measures how late a 2 ms tick can be in this process while a scenario runs: the scheduling latency the
@@ -328,6 +343,7 @@ func (w *world) issue(l *label, natural bool) error {
 		}
 		r := &realSess{id: l.i, tr: l.tr, peer: pc, direct: true, w: w}
 		r.fc = newFaultConn(sc, l.i)
+		r.fc.closeErr = w.closeErr
 		if w.amp > 1 && l.tr == trTcp {
 			r.fc.amp = w.amp
 			// small socket buffers: the writer blocks early instead of parking megabytes in the kernel
@@ -342,7 +358,7 @@ func (w *world) issue(l *label, natural bool) error {
 		w.sess = append(w.sess, r)
 		w.byName[string(r.fc.name)] = r
 		w.mu.Unlock()
-		s := stcp.NewSession(w.mgr, r.fc)
+		s := stcp.NewSession(w.mgr, r.fc.forSession())
 		setRetired(fmt.Sprintf("%p", s), false)
 		r.sess.Store(s)
 		r.started.Store(true)
@@ -352,7 +368,7 @@ func (w *world) issue(l *label, natural bool) error {
 		s.Start()
 		return nil
 	case lArrive:
-		r := &realSess{id: l.i, tr: trTcp}
+		r := &realSess{id: l.i, tr: trTcp, w: w}
 		// the connection is registered under the client's address while the lock is held, so that the accept loop's
 		// Do (which looks it up under the same lock) cannot run ahead of the registration
 		w.mu.Lock()
@@ -381,7 +397,18 @@ func (w *world) issue(l *label, natural bool) error {
 	}
 	switch l.kind {
 	case aSend:
-		l.ok = r.sess.Load().Send(l.bs) == nil
+		bs := l.bs
+		if l.real != nil {
+			bs = l.real
+		} else if w.sendAmp > 1 {
+			bs = make([]byte, 0, len(l.bs)*w.sendAmp)
+			for _, x := range l.bs {
+				for j := 0; j < w.sendAmp; j++ {
+					bs = append(bs, x)
+				}
+			}
+		}
+		l.ok = r.sess.Load().Send(bs) == nil
 	case aLocalClose:
 		r.sess.Load().Close()
 	case aStartAgain:
